@@ -76,6 +76,18 @@ def generate(seed, tier="quick"):
             f["tests"].append({"name": f"test_ident{n}", "events": [
                 {"t": "stmt", "text": f"_o{n} = [1, {{'k': 2}}]"},
                 {"t": "stmt", "text": f"rec('id{n}', lambda: snapshot_alias(_o{n}) is _o{n})"}]})
+    xf = sub(seed, "xfailmix")
+    if xf.random() < 0.45:
+        # one xfail-marked test in the middle of the session (it runs with a private inactive state)
+        f = prog["files"][0]
+        cands = [t for t in f["tests"] if not any(e.get("t") == "stmt" for e in t["events"])]
+        if cands:
+            xf.choice(cands)["xfail"] = True
+        # the identity probe runs after it
+        f["tests"].append({"name": "test_zz_ident_after_xfail", "events": [
+            {"t": "stmt", "text": "_oz = [1, {'k': 2}]"},
+            {"t": "stmt", "text": "rec('idz', lambda: snapshot_alias(_oz) is _oz)"},
+            {"t": "stmt", "text": "rec('idz2', lambda: len(snapshot_alias([1, 2])) == 2)"}]})
     route = sub(seed, "route").choice(ROUTES)
     return {"program": prog, "route": route, "ci_var": sub(seed, "ci").choice(drivers.CI_VARS), "plugin_active": sub(seed, "pa").random() < 0.3}
 
@@ -185,6 +197,8 @@ def execute(case, ctx):
                 if e.get("t") == "stmt" and "rec('id" in e["text"] and drec is not None and route in ("flag", "ci"):
                     eid = e["text"].split("'")[1]
                     ctx.count("probe_identity_when_disabled")
+                    if eid.startswith("idz"):
+                        ctx.count("probe_identity_after_xfail_test")
                     if drec.get(eid) != [True]:
                         viol("identity-when-disabled", f"snapshot(v)-is-not-v:{route}", f"{eid}: {drec.get(eid)}")
                 if e.get("t") == "stmt" and e["text"].startswith("rec('w"):
